@@ -706,7 +706,26 @@ Definition subline_expected (f : frame) (keys : list str) (t : nat) : str :=
 
 (* clause ids: 1 a data row is not under its own heading; 2 headings not outer-before-inner; 3 a heading
    is not directly followed by a heading or a data row; 4 a divider value produced a heading; 5 unknown
-   heading text; 6 subline heading missing / wrong / duplicated; 7 tags *)
+   heading text; 6 subline heading missing / wrong / duplicated; 7 tags; 8 a divider row was pushed to the next page although it fits *)
+(* clause 8, "divider values never cost a data row": a page closes before a row all of whose grouping values are the divider,
+   without a grouping rule forcing it, although the row's own lines would still fit (the lines already on the page counted as
+   the row metadata counts them) *)
+Definition all_divider_row (f : frame) (keys : list str) (t : nat) : bool :=
+  nonempty keys
+  && all_b (fun k => str_eqb (py_str (col_val (f_cols f) (nth t (f_rows f) []) k)) divider) keys.
+
+Fixpoint c05_divider_cost (avail : Z) (np : bool) (f : frame) (keys : list str) (ms : list rowmeta) (pages : list Z)
+         (t : nat) (prev cur : Z) : bool :=
+  match ms, pages with
+  | m :: ms', p :: ps =>
+    if Z.eqb p prev then c05_divider_cost avail np f keys ms' ps (S t) p (cur + rm_total m)%Z
+    else
+      let forced := rm_ss m || (np && rm_gs m) in
+      (all_divider_row f keys t && negb forced && (cur + rm_data m <=? avail)%Z)
+      || c05_divider_cost avail np f keys ms' ps (S t) p (rm_total m)
+  | _, _ => false
+  end.
+
 Definition check_c05 (d : doc) (pd : pdoc) : nat :=
   match d_content d with
   | CSingle f b =>
@@ -714,6 +733,14 @@ Definition check_c05 (d : doc) (pd : pdoc) : nat :=
     let pb := opt_list (b_page_by b) in
     let sl := opt_list (b_subline_by b) in
     if negb (nat_list_eqb (concat (page_tags pd)) (seq 0 (length (f_rows f)))) then 7
+    else if match section_info (single_secdoc d f b) with
+            | Ok si => match si_metas si, number_pages (page_tags pd) 1 with
+                       | m :: ms, p :: ps =>
+                         c05_divider_cost (si_avail si) (si_new_page si) f (pb ++ sl) ms ps 1 p (rm_total m)
+                       | _, _ => false
+                       end
+            | Err _ => false
+            end then 8
     else
       let c_pb :=
           if nonempty pb && spanning_enabled b then
